@@ -1,0 +1,14 @@
+//go:build verif
+
+// Ghost lemma functions for the verifier under /verif (never called; compiled
+// only with -tags verif). Their contracts are in zz_verif_contracts.go.
+
+package types
+
+// lemmaKeyAgreement: the node side and the server side of one key agreement
+// derive the same key id and the same shared secret.
+func lemmaKeyAgreement(node *NodeCredentials, server *NodeInformation) (nid string, nkey []byte, nerr error, sid string, skey []byte, serr error) {
+	nid, nkey, nerr = node.X25519EncryptionKey()
+	sid, skey, serr = server.X25519EncryptionKey()
+	return
+}
